@@ -453,3 +453,100 @@ func isSnapshotLoad(v ssa.Value) bool {
 	call, ok := ta.X.(*ssa.Call)
 	return ok && calleeName(call.Common()) == "(*sync/atomic.Value).Load"
 }
+
+// paramArgs returns, for a parameter of a module function, the argument bound to it at every
+// call site of the function in the module (static calls, and interface invocations resolved by
+// the call graph). ok is false when the function has no call site, or can be reached through a
+// function value (then not every caller is known).
+func (p *Prog) paramArgs(par *ssa.Parameter) ([]ssa.Value, bool) {
+	fn := par.Parent()
+	if fn == nil || !ModuleFunc(fn) {
+		return nil, false
+	}
+	idx := -1
+	for i, q := range fn.Params {
+		if q == par {
+			idx = i
+		}
+	}
+	if idx < 0 {
+		return nil, false
+	}
+	g := p.CG()
+	for _, f := range g.addrTaken {
+		if f == fn {
+			return nil, false
+		}
+	}
+	var out []ssa.Value
+	for _, e := range g.In[fn] {
+		if e.Kind == EdgeRef {
+			return nil, false
+		}
+		cc := callCommon(e.Site)
+		if cc == nil {
+			return nil, false
+		}
+		i := idx
+		if cc.IsInvoke() {
+			if i == 0 {
+				out = append(out, cc.Value)
+				continue
+			}
+			i--
+		} else if cc.StaticCallee() != fn {
+			return nil, false
+		}
+		if i >= len(cc.Args) {
+			return nil, false
+		}
+		out = append(out, cc.Args[i])
+	}
+	return out, len(out) > 0
+}
+
+// variadicElems: the values stored into the implicit array of a variadic argument `v`
+// (a Slice of a local array Alloc), in index order, with interface boxing removed.
+func variadicElems(v ssa.Value) ([]ssa.Value, bool) {
+	sl, ok := v.(*ssa.Slice)
+	if !ok {
+		return nil, false
+	}
+	al, ok := sl.X.(*ssa.Alloc)
+	if !ok {
+		return nil, false
+	}
+	arr, ok := al.Type().(*types.Pointer).Elem().(*types.Array)
+	if !ok {
+		return nil, false
+	}
+	out := make([]ssa.Value, arr.Len())
+	for _, r := range *al.Referrers() {
+		ia, ok := r.(*ssa.IndexAddr)
+		if !ok {
+			continue
+		}
+		k, ok := constInt(ia.Index)
+		if !ok || k < 0 || k >= arr.Len() {
+			return nil, false
+		}
+		for _, rr := range *ia.Referrers() {
+			if st, ok := rr.(*ssa.Store); ok {
+				if out[k] != nil {
+					return nil, false
+				}
+				x := st.Val
+				if mi, ok := x.(*ssa.MakeInterface); ok {
+					x = mi.X
+				}
+				out[k] = x
+			}
+		}
+	}
+	for _, x := range out {
+		if x == nil {
+			return nil, false
+		}
+	}
+	return out, true
+}
